@@ -2,3 +2,4 @@ from . import rules_alloc  # noqa
 from . import rules_arch  # noqa
 from . import rules_walk  # noqa
 from . import rules_tables  # noqa
+from . import rules_sched  # noqa
